@@ -451,13 +451,13 @@ def get_next_assignment(
     """
     candidates = get_value_candidates(variable, current_value)
 
-    found = None
     for candidate in candidates:
         # Check if assigning candidate value to the variable would cause the global
         # cost to exceed the upper-bound.
         candidate_cost = 0
         if not current_path:
             return candidate, 0
+        pruned = False
         for var, val, elt_cost in current_path:
             var_constraints = constraints_for_variable(constraints, var)
             # This only works for binary constraints, we could extend it to n-ary constraints
@@ -468,14 +468,12 @@ def get_next_assignment(
             if mode == "min" and (
                 candidate_cost >= upper_bound or ass_cost + elt_cost >= upper_bound
             ):
+                pruned = True
                 break  # Try next value in domain.
-            else:
-                found = candidate, candidate_cost  # Check for next elt in path.
-        if mode == "max" and candidate_cost > upper_bound:
-            found = candidate, candidate_cost
-
-        if found:
-            return found
+        # The candidate is only acceptable once its cost against the *whole*
+        # path is known and within the bound.
+        if not pruned:
+            return candidate, candidate_cost
 
     return None
 
